@@ -74,11 +74,24 @@ Qed.
 (* Object.__eq__ / __ne__ (classes with use_symbolic_comparison) are pg.eq / pg.ne *)
 Lemma depth_dict s s' u e : depth (PDict s e) = depth (PObj s' u e).
 Proof. reflexivity. Qed.
-Lemma op_eq_law a b : (exists n u e, a = PObj n u e) -> op_eq a b = eq a b /\ op_ne a b = ne a b.
+Lemma sym_eq_eq a b : (exists n u e, a = PObj n u e) -> sym_eq a b = eq a b.
+Proof. intros (n & u & e & ->). unfold sym_eq, eq. destruct b; reflexivity. Qed.
+
+(* the identity shortcut changes nothing on the domain: an object is equal to itself anyway *)
+Lemma eq_top_law same a b : (same = true -> a = b) -> ok a -> eq_top same a b = eq a b.
 Proof.
-  intros (n & u & e & ->). unfold op_ne, ne, op_eq, sym_eq, eq.
-  destruct b; split; reflexivity.
+  intros S Ha. unfold eq_top. destruct same; auto. rewrite <- (S Logic.eq_refl), eq_refl_law; auto.
 Qed.
+
+Lemma op_eq_law same a b : (exists n u e, a = PObj n u e) -> (same = true -> a = b) -> ok a ->
+  op_eq true same a b = eq a b /\ op_ne true same a b = ne a b /\ op_hash t true a = Some (hpre t a).
+Proof.
+  intros O S Ha. unfold op_ne, ne, op_eq, op_hash. rewrite sym_eq_eq by auto.
+  fold (eq_top same a b). rewrite eq_top_law by auto. auto.
+Qed.
+(* a class that does not opt in: == is identity *)
+Lemma op_eq_optout same a b : op_eq false same a b = same /\ op_ne false same a b = negb same.
+Proof. split; reflexivity. Qed.
 
 (* ---- sorting ---------------------------------------------------------------------------------- *)
 Lemma cmp3_spec a b : ok a -> ok b -> cmp3 t a b = Ok (nc t a b).
